@@ -23,10 +23,7 @@ RULE = ("case = (integrand family, n, bck_options n' or absent, form of xl, form
         "value plane); "
         "complete cross product (finite families for finite limits, decaying families when a limit is infinite); "
         "distinct = distinct observation hashes (call counts per phase, None pattern, rounded residual ratios)")
-RULE_ADDED = ('Added later: limits-only plane (no differentiable parameter), caller-supplied method callable (compo'
-              'site midpoint rule) x bck_options present / absent (the backward abscissae must be those of the inhe'
-              'rited callable), call-order plane in fresh interpreters. Round 4: objective sq0 (exactly zero cotang'
-              'ent with second-order content), kinds pure_twice / nn_twice (one tensor in two places).')
+RULE_ADDED = 'Added later: limits-only plane (no differentiable parameter), caller-supplied method callable (composite midpoint rule) x bck_options present / absent (the backward abscissae must be those of the inherited callable), call-order plane in fresh interpreters. Round 4: objective sq0 (exactly zero cotangent with second-order content), kinds pure_twice / nn_twice (one tensor in two places). Round 6: the object is given other tensors between the forward call and the backward pass (kinds nn, edit).'
 ASSUMPTIONS = [
     "finite limits are xl=-0.5, xu=1.25 (thorough adds the reversed orientation); float64 only",
     "the rule for the prescribed n is extracted from quad's own forward pass (C12 judges that rule); the reference "
